@@ -26,8 +26,30 @@ SPECS['COTPConnectionConfirm'] = cotp(0xd)
 
 
 # ---- [MS-RDPBCGR] 2.2.1.1.1 RDP_NEG_REQ (type 1) / 2.2.1.2.1 RDP_NEG_RSP (type 2): type(1) flags(1) length(2, LE, = 8) protocols(4, LE)
+#      flag and protocol values as the document defines them (the specification does not read them from the repository's
+#      enumerations, so a value changed consistently for parse and compose is still a difference)
+RDP_REQ_FLAGS = dict(RESTRICTED_ADMIN_MODE_REQUIRED=0x01, REDIRECTED_AUTHENTICATION_MODE_REQUIRED=0x02, CORRELATION_INFO_PRESENT=0x08)
+RDP_RSP_FLAGS = dict(EXTENDED_CLIENT_DATA_SUPPORTED=0x01, DYNVC_GFX_PROTOCOL_SUPPORTED=0x02, NEGRSP_FLAG_RESERVED=0x04,
+                     RESTRICTED_ADMIN_MODE_SUPPORTED=0x08, REDIRECTED_AUTHENTICATION_MODE_SUPPORTED=0x10)
+RDP_PROTOCOLS = dict(RDP=0x00000000, SSL=0x00000001, HYBRID=0x00000002, RDSTLS=0x00000004, HYBRID_EX=0x00000008)
+
+
+def named_flags_value(fl, table):
+    """OR of the flags of a set, each flag valued by the document's table (looked up by member name)"""
+    from pyvc.values import SFlags
+    members = list(fl.bits.items()) if isinstance(fl, SFlags) else [(m, z3.BoolVal(True)) for m in fl]
+    total = z3.IntVal(0)
+    for m, present in members:
+        if m.name not in table:
+            raise NoSpec('flag %s has no value in the specification table' % m.name)
+        total = total + z3.If(present, z3.IntVal(table[m.name]), z3.IntVal(0))      # the documents assign distinct bits
+    return total
+
+
 def rdp_neg(ptype):
-    return lambda o: cat(u8(ptype), u8(flags_value(o.f['flags'])), le(8, 2), le(flags_value(o.f['protocol']), 4))
+    table = RDP_REQ_FLAGS if ptype == 1 else RDP_RSP_FLAGS
+    return lambda o: cat(u8(ptype), u8(named_flags_value(o.f['flags'], table)), le(8, 2),
+                         le(named_flags_value(o.f['protocol'], RDP_PROTOCOLS), 4))
 
 
 SPECS['RDPNegotiationRequest'] = rdp_neg(1)
